@@ -72,6 +72,7 @@ pub fn ins_val() -> BoxedStrategy<Blob> {
         3 => (any::<u8>(), 20u32..300).prop_map(|(fill, n)| Blob::Pad { fill, n, tail: vec![] }),
         1 => (300u32..5000, any::<u64>()).prop_map(|(n, seed)| Blob::Rand { n, seed }),
         1 => gen::val_magic_len(),
+        1 => (130_000u32..300_000, any::<u8>()).prop_map(|(n, fill)| Blob::Pad { fill, n, tail: vec![3] }),
         // larger than the whole buffer of most small configurations
         1 => (5000u32..70_000, any::<u8>()).prop_map(|(n, fill)| Blob::Pad { fill, n, tail: vec![9] }),
     ]
@@ -272,7 +273,29 @@ impl Prop for C07 {
                 src,
             },
         );
+        // more simultaneously existing chunks than fit in 8 / 16 bits: every insert spills (entry > budget/2), a few keys
+        // recur in distant chunks; the final merge has tens of thousands of sources
+        let many_chunks = (prop::sample::select(vec![300u32, 65_540, 66_000]), 2u16..6, prop::sample::select(vec![MergeKind::Concat, MergeKind::First, MergeKind::Last]), any::<bool>())
+            .prop_map(|(n, key_mod, kind, stable)| Case {
+                conf: SConf {
+                    threshold: Threshold::Exact(256),
+                    init_cap: Some(256),
+                    allow_realloc: false,
+                    max_nb_chunks: 1_000_000,
+                    stable,
+                    parallel: false,
+                    chunk_codec: None,
+                    chunk_level: None,
+                    block_size: None,
+                    interval: None,
+                    levels: None,
+                    creator: CreatorKind::CursorVec,
+                },
+                kind,
+                src: InsertSrc::Many { n, key_mod, mul: 1, kpad: 0, vlen: 160 },
+            });
         vec![
+            stage("many-chunks", many_chunks, tier.pick(16, 96)).shrink(4),
             stage("small-budget", small, tier.pick(8000, 120_000)).shrink(400),
             stage("parallel-large", par, tier.pick(96, 2000)).shrink(30),
             stage("public-api", public, tier.pick(600, 8000)).shrink(200),
